@@ -25,6 +25,31 @@ pub fn register_current() -> u32 {
     t
 }
 
+/// RAII registration for spawned harness threads: the tid is removed again when the thread ends. Kernel tids are
+/// reused quickly (pid_max is 32768 here and the drivers create tens of thousands of threads), so a stale entry
+/// would make a later LIBRARY thread with the same tid look like a harness thread.
+pub struct Registration {
+    pub tid: u32,
+}
+
+impl Registration {
+    pub fn new() -> Registration {
+        Registration { tid: register_current() }
+    }
+}
+
+impl Default for Registration {
+    fn default() -> Self {
+        Self::new()
+    }
+}
+
+impl Drop for Registration {
+    fn drop(&mut self) {
+        unregister(self.tid);
+    }
+}
+
 pub fn unregister(tid: u32) {
     HARNESS_TIDS.lock().unwrap().remove(&tid);
 }
@@ -49,6 +74,15 @@ pub fn all_tids() -> Vec<u32> {
 pub fn library_tids() -> Vec<u32> {
     let h = HARNESS_TIDS.lock().unwrap().clone();
     all_tids().into_iter().filter(|t| !h.contains(t)).collect()
+}
+
+/// Start time of a task (clock ticks since boot, field 22 of /proc/self/task/<tid>/stat): together with the tid it
+/// identifies a thread even when the kernel reuses the tid later.
+pub fn task_starttime(tid: u32) -> Option<u64> {
+    let s = std::fs::read_to_string(format!("/proc/self/task/{}/stat", tid)).ok()?;
+    // the command name (field 2) is in parentheses and may contain spaces: split after the last ')'
+    let rest = &s[s.rfind(')')? + 1..];
+    rest.split_whitespace().nth(19).and_then(|x| x.parse().ok())
 }
 
 #[derive(Clone, Debug, PartialEq, Eq)]
